@@ -20,6 +20,6 @@ PROP = dict(
                  "every node answers an instruction at least once before the history ends (drain phase), as followResizeInstruction does"],
     tags=["gx"],
     units=[
-        U("resize", ".", "^TestVerifC22_Resize$", 400, 12000, sq=4, sth=14, timeout={"quick": 600, "thorough": 3000}),
+        U("resize", ".", "^TestVerifC22_Resize$", 400, 10000, sq=4, sth=14, timeout={"quick": 600, "thorough": 3000}),
     ],
 )
